@@ -5,7 +5,13 @@ negative probes: types that must not be Collect<'gc>."""
 from probes import Probe
 
 HEAD = r'''#![allow(unused, unused_mut)]
-use gc_arena::{Arena, Collect, Gc, GcWeak, Lock, RefLock, Rootable, Mutation, Static, collect::Trace, lock::OnceLock, arena::rootless_mutate, SliceWithHeader, GcSliceWithHeaderBuilder};
+use gc_arena::{Arena, Collect, Gc, GcWeak, Lock, RefLock, Rootable, Mutation, Static, collect::{Trace, DynCollect, dyn_collect}, lock::OnceLock, arena::rootless_mutate, SliceWithHeader, GcSliceWithHeaderBuilder};
+trait Named<'gc>: 'gc + DynCollect<'gc> { fn name(&self) -> u8 { 1 } }
+dyn_collect!(dyn Named<'gc>);
+impl<'gc> Named<'gc> for (S<'gc>, W<'gc>) {}
+impl<'gc> Named<'gc> for Vec<W<'gc>> {}
+impl<'gc> Named<'gc> for (S<'gc>, W<'gc>, Vec<S<'gc>>, Option<W<'gc>>) {}
+impl<'gc> Named<'gc> for W<'gc> {}
 use std::collections::{BTreeMap, BTreeSet, BinaryHeap, HashMap, HashSet, LinkedList, VecDeque};
 use std::rc::Rc;
 use std::sync::Arc;
@@ -132,6 +138,12 @@ def body(optional, std=True):
         a(f'    {{ let g = GcSliceWithHeaderBuilder::<S, S>::new({n}).write_header(s[0]).write_slice_with(mc, |i| s[i + 1]); chkr!(f, "SliceWithHeader<Gc,Gc>/{n}", &*g, [s[0]{", " if n else ""}{sp}], [], true); }}')
         a(f'    {{ let g = GcSliceWithHeaderBuilder::<u8, S>::new({n}).write_header(0).write_slice_with(mc, |i| s[i + 1]); chkr!(f, "SliceWithHeader<u8,Gc>/{n}", &*g, [{sp}], [], true); }}')
         a(f'    {{ let g = GcSliceWithHeaderBuilder::<W, u8>::new({n}).write_header(w[0]).write_slice_with(mc, |i| 0u8); chkr!(f, "SliceWithHeader<GcWeak,u8>/{n}", &*g, [], [w[0]], true); }}')
+    # object-safe tracing path (DynCollect / dyn_collect!)
+    a('    { let b: Box<dyn Named<\'gc> + \'gc> = Box::new((s[0], w[0], vec![s[1]], Some(w[1]))); chkr!(f, "dyn Named (DynCollect path)", &*b, [s[0], s[1]], [w[0], w[1]], true); }')
+    a('    { let b: Box<dyn Named<\'gc> + \'gc> = Box::new(w[2]); chk!(f, "Box<dyn Named>/weak_only", b, [], [w[2]], true); }')
+    a('    { let b: Box<dyn DynCollect<\'gc>> = Box::new((1u8, String::new())); chkr!(f, "dyn DynCollect (static contents)", &*b, [], [], false); }')
+    a('    { let b: Box<dyn Named<\'gc> + \'gc> = Box::new((s[2], w[3])); chk!(f, "Box<dyn Named> via dyn_collect!", b, [s[2]], [w[3]], true); }')
+    a('    { let b: Rc<dyn Named<\'gc> + \'gc> = Rc::new(vec![w[4], w[5]]); chk!(f, "Rc<dyn Named> via dyn_collect!", b, [], [w[4], w[5]], true); }')
     # nestings
     a('    chk!(f, "Vec<Option<Gc>>", vec![Some(s[0]), None, Some(s[1])], [s[0], s[1]], [], true);')
     a('    chk!(f, "Option<Vec<GcWeak>>", Some(vec![w[0], w[1]]), [], [w[0], w[1]], true);')
